@@ -561,6 +561,21 @@ def r6_clef_in_force(ctx, rule='R6'):
                 and src(n.targets[0].slice) == f'{up.params[1]}.token.__class__.__name__' and F.is_name(n.value, up.params[1])
                 for n in walk_local(up.node))
     ctx.check(keyed, rule, up.loc, up.qualname, 'signature-key-writer', 'the signature context is keyed by the class name of the signature token')
+    # ... and recording one signature does nothing else to the context: no other entry is removed or replaced
+    other = []
+    for n in walk_local(up.node):
+        if isinstance(n, ast.Call) and isinstance(n.func, ast.Attribute) and src(n.func.value) == 'self.nodes' \
+                and n.func.attr in ('pop', 'popitem', 'clear', 'update', 'setdefault', '__delitem__'):
+            other.append(src(n)[:60])
+        if isinstance(n, ast.Delete) and any('self.nodes' in src(t) for t in n.targets):
+            other.append(src(n)[:60])
+        if isinstance(n, ast.Assign) and any(src(t) == 'self.nodes' for t in n.targets):
+            other.append(src(n)[:60])
+    n_st = len([n for n in walk_local(up.node) if isinstance(n, ast.Assign) and isinstance(n.targets[0], ast.Subscript) and src(n.targets[0].value) == 'self.nodes'])
+    ctx.check(not other and n_st == 1, rule, up.loc, up.qualname, 'signature-update-only-records',
+              'recording a signature stores exactly one entry and removes none',
+              f'SignatureNodes.update also does {other[:2] or [str(n_st) + " keyed stores"]}: a signature of another kind that is still in force '
+              f'is dropped from the context, so an excerpt that starts later lacks it')
     for gcall in gets:
         key = ast.literal_eval(gcall.args[0]) if gcall.args and isinstance(gcall.args[0], ast.Constant) else None
         ctx.check(key is not None and [key] == built, rule, f'{et.module.relpath}:{gcall.lineno}', et.qualname, 'clef-key-agreement',
